@@ -287,13 +287,21 @@ Qed.
 
 (* Whatever the command and however it ends, the shell's table afterwards is
    the table before - except after a successful exec. *)
+Definition redirs_ok (nc : bool) (s : kst) (c : cmd) : bool :=
+  snd (perform_redirs nc s (c_redirs c) []).
+
+Lemma stderr_preserve s stack :
+  k_tab (preserve_redirs (stderr_write s) stack) = k_tab (preserve_redirs s stack)
+  /\ k_lim (preserve_redirs (stderr_write s) stack) = k_lim s.
+Proof. destruct (stderr_write_tab s) as [A B]. cbn. rewrite A, B. split; reflexivity. Qed.
+
 Lemma command_restores_lemma nc s c s' inside ex :
   sorted (k_tab s) -> below_limit (k_lim s) (k_tab s) ->
   run_cmd nc s c = (s', inside, ex) ->
-  c_kind c <> KExec \/ ex = true ->
+  exec_like (c_kind c) = false \/ redirs_ok nc s c = false ->
   k_tab s' = k_tab s /\ k_lim s' = k_lim s.
 Proof.
-  intros Hs Hb. unfold run_cmd.
+  intros Hs Hb. unfold run_cmd, redirs_ok.
   destruct (perform_redirs nc s (c_redirs c) []) as [[s1 stack] ok] eqn:Hp.
   pose proof (undo_restores_lemma _ _ _ _ _ _ Hs Hb Hp) as Hundo.
   pose proof (perform_redirs_wf _ _ _ _ _ _ _ (conj Hs Hb) Hp) as [_ El].
@@ -302,9 +310,10 @@ Proof.
   { rewrite undo_stderr. split; [exact Hundo|]. cbn. destruct (stderr_write_tab s1) as [_ ->]. exact El. }
   assert (k_tab (undo_redirs s1 stack) = k_tab s /\ k_lim (undo_redirs s1 stack) = k_lim s) as Hok
     by (split; [exact Hundo|exact El]).
-  destruct (c_kind c) eqn:Ek; destruct ok; cbv beta iota zeta; intros E Hk; injection E as <- _ <-;
-    try assumption; try (split; reflexivity).
-  destruct Hk; [congruence|discriminate].
+  cbn [snd].
+  destruct (c_kind c) eqn:Ek; destruct ok; cbv beta iota zeta; intros E Hk; injection E as <- _ _;
+    try assumption; try (split; reflexivity);
+    destruct Hk; discriminate.
 Qed.
 
 Lemma run_cmd_inside nc s c s' si ex :
@@ -316,13 +325,20 @@ Proof.
     subst si; eauto.
 Qed.
 
-Lemma run_cmd_exec nc s c s' inside :
-  c_kind c = KExec -> run_cmd nc s c = (s', inside, false) ->
-  exists s1 stack, perform_redirs nc s (c_redirs c) [] = (s1, stack, true)
-                   /\ s' = preserve_redirs s1 stack.
+(* exec, with or without an operand: successful redirections stay *)
+Lemma run_cmd_exec nc s c s' inside ex s1 stack :
+  exec_like (c_kind c) = true ->
+  perform_redirs nc s (c_redirs c) [] = (s1, stack, true) ->
+  run_cmd nc s c = (s', inside, ex) ->
+  k_tab s' = k_tab (preserve_redirs s1 stack) /\ k_lim s' = k_lim s1
+  /\ ex = match c_kind c with KExecFail false => true | _ => false end.
 Proof.
-  unfold run_cmd. intros ->. destruct (perform_redirs nc s (c_redirs c) []) as [[s1 stack] ok].
-  destruct ok; cbv beta iota zeta; intros E; [injection E as <- _; eauto|discriminate].
+  unfold run_cmd. intros Hk Hp. rewrite Hp.
+  destruct (c_kind c) as [| | | | | | | |i]; try discriminate; cbv beta iota zeta;
+    intros E; injection E as <- _ <-.
+  - repeat split.
+  - destruct (stderr_preserve s1 stack) as [A B]. split; [exact A|]. split; [exact B|].
+    destruct i; reflexivity.
 Qed.
 
 (* ---- soundness of the oracle clauses about tables -------------------------------------------------- *)
@@ -356,7 +372,7 @@ Qed.
 Lemma oracle_restored_sound nc s c s' inside ex :
   sorted (k_tab s) -> below_limit (k_lim s) (k_tab s) ->
   run_cmd nc s c = (s', inside, ex) ->
-  c_kind c <> KExec \/ ex = true ->
+  exec_like (c_kind c) = false \/ redirs_ok nc s c = false ->
   restored (k_tab s) (k_tab s') = true.
 Proof.
   intros Hs Hb Hr Hk. destruct (command_restores_lemma _ _ _ _ _ _ Hs Hb Hr Hk) as [-> _].
@@ -372,12 +388,14 @@ Proof.
   apply explained_internal_ok. eapply internal_lemma; eassumption.
 Qed.
 
-Lemma oracle_persisted_sound nc s c s' inside :
+Lemma oracle_persisted_sound nc s c s' inside ex s1 stack :
   sorted (k_tab s) -> below_limit (k_lim s) (k_tab s) ->
-  c_kind c = KExec -> run_cmd nc s c = (s', inside, false) ->
+  exec_like (c_kind c) = true ->
+  perform_redirs nc s (c_redirs c) [] = (s1, stack, true) ->
+  run_cmd nc s c = (s', inside, ex) ->
   persisted_ok (targets (c_redirs c)) (k_tab s) (k_tab s') = true.
 Proof.
-  intros Hs Hb Hk Hr. destruct (run_cmd_exec _ _ _ _ _ Hk Hr) as [s1 [stack [Hp ->]]].
+  intros Hs Hb Hk Hp Hr. destruct (run_cmd_exec _ _ _ _ _ _ _ _ Hk Hp Hr) as [-> _].
   unfold persisted_ok. apply forallb_forall. intros fd _.
   destruct (in_dec N.eq_dec fd (targets (c_redirs c))) as [Hin|Hnin].
   - apply orb_true_iff. right. rewrite (mem_In _ _ Hin). cbn [andb].
@@ -408,14 +426,14 @@ Lemma command_keeps_wf_lemma nc s c s' inside ex :
   sorted (k_tab s') /\ below_limit (k_lim s') (k_tab s').
 Proof.
   intros Hs Hb Hr.
-  destruct (c_kind c) eqn:Ek; try (
-    destruct (command_restores_lemma _ _ _ _ _ _ Hs Hb Hr) as [-> ->];
-      [left; rewrite Ek; discriminate|split; assumption]).
-  destruct ex.
-  - destruct (command_restores_lemma _ _ _ _ _ _ Hs Hb Hr) as [-> ->];
-      [right; reflexivity|split; assumption].
-  - destruct (run_cmd_exec _ _ _ _ _ Ek Hr) as [s1 [stack [Hp ->]]].
+  destruct (exec_like (c_kind c)) eqn:Ek.
+  2:{ destruct (command_restores_lemma _ _ _ _ _ _ Hs Hb Hr) as [-> ->]; [left; exact Ek|split; assumption]. }
+  destruct (perform_redirs nc s (c_redirs c) []) as [[s1 stack] ok] eqn:Hp.
+  destruct ok.
+  - destruct (run_cmd_exec _ _ _ _ _ _ _ _ Ek Hp Hr) as [-> [-> _]].
     pose proof (perform_redirs_wf _ _ _ _ _ _ _ (conj Hs Hb) Hp) as [[Hs1 Hb1] El].
     cbn. split; [apply preserve_sorted; exact Hs1|].
     unfold preserve_tab. apply fold_preserve_below. exact Hb1.
+  - destruct (command_restores_lemma _ _ _ _ _ _ Hs Hb Hr) as [-> ->];
+      [right; unfold redirs_ok; rewrite Hp; reflexivity|split; assumption].
 Qed.
